@@ -423,6 +423,34 @@ def _vcf_case(res, case):
     if outs[0] != outs[1] and not isinstance(outs[0], str) and not isinstance(outs[1], str) and \
             sorted(expanded_solutions(dba.gene, outs[0])) == sorted(expanded_solutions(dbb.gene, outs[1])):
         mech = "solver-tie-between-equivalent-assignments"  # same variants, distributed differently over the copies
+    elif outs[0] != outs[1] and any("ins" in w for w in want):
+        # VCF insertions get no support and their pseudo-reads are booked at a neighbouring position (listed for
+        # C16); which neighbour depends on the strand.  Exact observable: the two samples' evidence, transported
+        # to RefSeq terms, differs only within two bases of a planted insertion.
+        from aldy.gene import Mutation as _M
+        from aldy.profile import Profile as _P
+        from aldy.sam import Sample as _S
+
+        tabs = []
+        for db in (dba, dbb):
+            g = db.gene
+            smp = _S(g, _P("user_provided", cn_solution=["1", "1"]),
+                     os.path.join(util.scratch_dir(), f"v_{db.genome}.vcf.gz"))
+            t = {}
+            for (p, op) in g.mutations:
+                r = g.chr_to_ref.get(p)
+                t[("var", refseq_of(g, (p, op)))] = (r, smp.coverage.coverage(_M(p, op)))
+                t[("ref", r)] = (r, smp.coverage.coverage(_M(p, "_")))
+            tabs.append(t)
+        ins_r = [dba.gene.chr_to_ref.get(m[0]) for m in dba.gene.mutations
+                 if m[1].startswith("ins") and refseq_of(dba.gene, m) in want]
+        # (sites keyed in one build only - every insertion's anchor moves by one base with the strand - carry no
+        # comparable reading)
+        diff = [k for k in set(tabs[0]) & set(tabs[1]) if tabs[0][k][1] != tabs[1][k][1]]
+        where = [(tabs[0].get(k) or tabs[1].get(k))[0] for k in diff]
+        if diff and all(w is not None and any(abs(w - i) <= 2 for i in ins_r if i is not None) for w in where):
+            mech = "vcf-insertion-evidence-differs-by-strand"
+            desc["evidence_differs_at_refseq"] = sorted(set(where))
     res.check("vcf_builds_equal", outs[0] == outs[1],
               "the same sample written as a VCF against the two builds is genotyped differently", mech=mech,
               first=str(outs[0])[:400], second=str(outs[1])[:400], **desc)
